@@ -1,9 +1,359 @@
 import Driver.Proto
+import PolyVerif.Model.GraphIO
 
+/-!
+  C12 driver: answers the `c12.*` request lines from `PolyVerif.Model.GraphIO`.
+  Payload strings stay opaque (the `s<hex>` token itself); only what the model inspects is decoded
+  (ids, port / dependency names, output ports, the three header strings).  Hex preserves byte order,
+  so sorting tokens = sorting the Go strings.
+-/
 namespace Driver.C12
+open PolyVerif.GraphIO
 
-/-- one request -> one answer line; `none` = unknown op / malformed -/
-def handle (_op : String) (_args : List String) : Option String := none
+/-! ### tokens -/
+
+def hexVal (c : Char) : Option Nat :=
+  if '0' ≤ c ∧ c ≤ '9' then some (c.toNat - 48)
+  else if 'a' ≤ c ∧ c ≤ 'f' then some (c.toNat - 87) else none
+
+def unhexBytes : List Char → Option (List UInt8)
+  | [] => some []
+  | [_] => none
+  | a :: b :: r => do
+    let x ← hexVal a; let y ← hexVal b; let rest ← unhexBytes r
+    pure (UInt8.ofNat (x * 16 + y) :: rest)
+
+/-- `s<hex>` → the UTF-8 string -/
+def unS (t : String) : Option String :=
+  match t.toList with
+  | 's' :: r => do
+    let bs ← unhexBytes r
+    String.fromUTF8? (ByteArray.mk bs.toArray)
+  | _ => none
+
+def hexNib (n : Nat) : Char := if n < 10 then Char.ofNat (48 + n) else Char.ofNat (87 + n)
+
+def hs (s : String) : String :=
+  String.ofList ('s' :: s.toUTF8.toList.flatMap (fun b => [hexNib (b.toNat / 16), hexNib (b.toNat % 16)]))
+
+abbrev P := StateT (List String) Option
+
+def tok : P String := fun s => match s with | [] => none | t :: r => some (t, r)
+def pNat : P Nat := do let t ← tok; (t.toNat? : Option Nat)
+def pStr : P String := do let t ← tok; (unS t : Option String)          -- decoded
+def pRaw : P String := do                                              -- opaque `s…` token
+  let t ← tok
+  if t.startsWith "s" then pure t else failure
+def pOptRaw : P (Option String) := do
+  let t ← tok
+  if t = "-" then pure none else if t.startsWith "s" then pure (some t) else failure
+def pName : P Name := do let s ← pStr; pure s.toList
+
+def pMany {α} (p : P α) : Nat → P (List α)
+  | 0 => pure []
+  | n + 1 => do let a ← p; let r ← pMany p n; pure (a :: r)
+
+def pCounted {α} (p : P α) : P (List α) := do let n ← pNat; pMany p n
+
+/-! ### environment -/
+
+abbrev V := String
+abbrev G := Graph V
+
+structure TyEntry where
+  name : TyName
+  T : NodeType
+  dflt : Option V
+
+def pPort : P (Name × VTy) := do let n ← pName; let t ← pNat; pure (n, t)
+
+def pTy : P TyEntry := do
+  let name ← pRaw; let out ← pNat; let kind ← pNat; let dflt ← pOptRaw
+  let scal ← pCounted pPort; let arrs ← pCounted pPort
+  let pk : Option PKind := if kind = 1 then some .value else if kind = 2 then some .file else none
+  pure { name := name, T := { out := out, scal := scal, arrs := arrs, param := pk }, dflt := dflt }
+
+def mkEnv (tys : List TyEntry) : Env V V :=
+  { types := fun n => (tys.find? (·.name = n)).map (·.T),
+    dflt := fun n => (tys.find? (·.name = n)).bind (·.dflt),
+    toJ := id, fromJ := fun _ j => some j,
+    cat := fun a b => a ++ (b.drop 1).toString }
+
+def pHdr : P Hdr := do
+  let n ← pStr; let v ← pStr; let d ← pStr; let a ← pOptRaw; let w ← pOptRaw
+  pure ⟨n, v, d, a, w⟩
+
+partial def pMeta : P Meta := do
+  let t ← tok
+  if t = "L" then do let j ← pRaw; pure (.leaf j)
+  else if t = "O" then do
+    let n ← pNat
+    let kids ← pMany (do let k ← pRaw; let m ← pMeta; pure (k, m)) n
+    pure (.obj kids)
+  else failure
+
+def pKids : P (List (String × Meta)) := pCounted (do let k ← pRaw; let m ← pMeta; pure (k, m))
+
+def pOp : P (Op V) := do
+  let t ← tok
+  match t with
+  | "C" => do let ty ← pRaw; pure (.create ty)
+  | "N" => do let s ← pStr; let sp ← pStr; let d ← pStr; let ip ← pName; pure (.connect s sp d ip)
+  | "D" => do let d ← pStr; let ip ← pName; pure (.disconnect d ip)
+  | "V" => do let i ← pStr; let j ← pRaw; pure (.setValue i j)
+  | "A" => do let i ← pStr; let s ← pRaw; pure (.setName i s)
+  | "E" => do let i ← pStr; let s ← pRaw; pure (.setDesc i s)
+  | "P" => do let i ← pStr; let f ← pRaw; pure (.setProducer i f)
+  | "M" => do let p ← pCounted pRaw; let v ← pMeta; pure (.metaSet p v)
+  | "X" => do let p ← pCounted pRaw; pure (.metaDel p)
+  | "R" => do let i ← pStr; pure (.delete i)
+  | _ => failure
+
+/-! ### canonical printing (must match go/harness/c12.go) -/
+
+def sortStr (l : List String) : List String := (l.toArray.qsort (· < ·)).toList
+
+def sortOn {α} (key : α → String) (l : List α) : List α := (l.toArray.qsort (fun a b => key a < key b)).toList
+
+def nameTok (n : Name) : String := hs (String.ofList n)
+
+def optTok : Option String → String
+  | none => "-"
+  | some s => s
+
+def cliTok : Option (String × String) → List String
+  | none => ["-"]
+  | some (f, u) => ["c", f, u]
+
+def hdrToks (h : Hdr) : List String := [hs h.name, hs h.version, hs h.description, optTok h.authors, optTok h.webScene]
+
+mutual
+partial def metaToks : Meta → List String
+  | .leaf j => ["L", j]
+  | .obj kids => "O" :: kidsToksS kids
+partial def kidsToksS (kids : List (String × Meta)) : List String :=
+  toString kids.length :: (sortOn (·.1) kids).flatMap (fun kv => kv.1 :: metaToks kv.2)
+end
+
+def emptyParamName : String := "s"
+
+def nodeToks (E : Env V V) (n : Node V) : List String :=
+  let T : NodeType := (E.types n.ty).getD { out := 0, scal := [], arrs := [], param := none }
+  let scal := (sortOn (fun p => nameTok p.1) T.scal).filterMap (fun p => (n.scal p.1).map (fun r => [nameTok p.1, hs r.node, hs r.port]))
+  let arrs := (sortOn (fun p => nameTok p.1) T.arrs).filterMap (fun p =>
+    let l := n.arrs p.1
+    if l.isEmpty then none else some (nameTok p.1 :: toString l.length :: l.flatMap (fun r => [hs r.node, hs r.port])))
+  [hs n.id, n.ty] ++ (toString scal.length :: scal.flatten) ++ (toString arrs.length :: arrs.flatten) ++
+  (match n.par with
+   | none => ["-"]
+   | some p => ["p", p.name, p.desc, optTok p.value, optTok p.dflt] ++ cliTok p.cli)
+
+def prodToks (ps : List (String × Ref)) : List String :=
+  toString ps.length :: (sortOn (·.1) ps).flatMap (fun kv => [kv.1, hs kv.2.node, hs kv.2.port])
+
+def graphToks (E : Env V V) (g : G) : List String :=
+  ["G"] ++ hdrToks g.hdr ++ [toString g.nodes.length] ++ (sortOn (fun n => hs n.id) g.nodes).flatMap (nodeToks E) ++
+  prodToks g.prods ++ kidsToksS g.md
+
+def nodeSToks (n : NodeS V) : List String :=
+  [hs n.id, n.ty, toString n.deps.length] ++ n.deps.flatMap (fun d => [nameTok d.name, hs d.ref.node, hs d.ref.port]) ++
+  (match n.data with
+   | none => ["-"]
+   | some d => ["d", d.name, optTok d.desc, optTok d.cur, optTok d.dflt] ++ cliTok d.cli)
+
+def schemaToks (s : Schema V) : List String :=
+  ["S"] ++ hdrToks s.hdr ++ [toString s.nodes.length] ++ (sortOn (fun n => hs n.id) s.nodes).flatMap nodeSToks ++
+  prodToks s.prods ++ kidsToksS s.md
+
+/-! ### parsing dumps back -/
+
+def pRef : P Ref := do let i ← pStr; let p ← pStr; pure ⟨i, p⟩
+
+def pCli : P (Option (String × String)) := do
+  let t ← tok
+  if t = "-" then pure none
+  else if t = "c" then do let f ← pRaw; let u ← pRaw; pure (some (f, u))
+  else failure
+
+def pNode : P (Node V) := do
+  let id ← pStr; let ty ← pRaw
+  let scal ← pCounted (do let p ← pName; let r ← pRef; pure (p, r))
+  let arrs ← pCounted (do let p ← pName; let l ← pCounted pRef; pure (p, l))
+  let t ← tok
+  let par ← (if t = "-" then pure none
+    else if t = "p" then do
+      let name ← pRaw; let desc ← pRaw; let v ← pOptRaw; let d ← pOptRaw; let cli ← pCli
+      -- a dump shows Value(); store it as the applied value
+      pure (some { name := name, desc := desc, cur := v, dflt := d, cli := cli : Param V })
+    else failure : P (Option (Param V)))
+  pure { id := id, ty := ty,
+         scal := fun q => (scal.find? (·.1 = q)).map (·.2),
+         arrs := fun q => ((arrs.find? (·.1 = q)).map (·.2)).getD [],
+         par := par }
+
+def pProds : P (List (String × Ref)) := pCounted (do let f ← pRaw; let r ← pRef; pure (f, r))
+
+def pGraph : P G := do
+  let t ← tok
+  if t ≠ "G" then failure
+  let hdr ← pHdr
+  let nodes ← pCounted pNode
+  let prods ← pProds
+  let md ← pKids
+  pure { nodes := nodes, prods := prods, md := md, hdr := hdr }
+
+def pNodeS : P (NodeS V) := do
+  let id ← pStr; let ty ← pRaw
+  let deps ← pCounted (do let n ← pName; let r ← pRef; pure (⟨n, r⟩ : Dep))
+  let t ← tok
+  let data ← (if t = "-" then pure none
+    else if t = "d" then do
+      let name ← pRaw; let desc ← pOptRaw; let c ← pOptRaw; let d ← pOptRaw; let cli ← pCli
+      pure (some { name := name, desc := desc, cur := c, dflt := d, cli := cli : PData V })
+    else failure : P (Option (PData V)))
+  pure { id := id, ty := ty, deps := deps, data := data }
+
+def pSchema : P (Schema V) := do
+  let t ← tok
+  if t ≠ "S" then failure
+  let hdr ← pHdr
+  let nodes ← pCounted pNodeS
+  let prods ← pProds
+  let md ← pKids
+  pure { hdr := hdr, nodes := nodes, prods := prods, md := md }
+
+/-! ### requests -/
+
+def errTok : Err → String
+  | .panic => "panic" | .err => "err" | .fuel => "fuel"
+
+/-- run a history, collecting the status of every op -/
+def runStat (E : Env V V) (g : G) : List (Op V) → G × List String
+  | [] => (g, [])
+  | op :: ops =>
+    match step E g op with
+    | .ok g' => let (gf, st) := runStat E g' ops; (gf, "ok" :: st)
+    | .error e => let (gf, st) := runStat E g ops; (gf, errTok e :: st)
+
+def pCase : P (Env V V × G × List (Op V)) := do
+  let hdr ← pHdr
+  let tys ← pCounted pTy
+  let ops ← pCounted pOp
+  pure (mkEnv tys, Graph.init hdr, ops)
+
+def fixDesc (s : Schema V) : Schema V :=
+  -- a value parameter's description decodes from JSON "" as the empty string token
+  s
+
+def join (l : List String) : String := " ".intercalate l
+
+def metaEq (a b : List (String × Meta)) : Bool := kidsToksS a == kidsToksS b
+
+/-- the opaque empty string is the token "s": make `desc.getD ""` of the model print like Go's "" -/
+def normEmpty (g : G) : G :=
+  { g with nodes := g.nodes.map fun n =>
+      { n with par := n.par.map fun p => { p with name := if p.name = "" then "s" else p.name,
+                                                  desc := if p.desc = "" then "s" else p.desc } } }
+
+def normEmptyS (s : Schema V) : Schema V :=
+  { s with nodes := s.nodes.map fun n =>
+      { n with data := n.data.map fun d => { d with name := if d.name = "" then "s" else d.name,
+                                                    desc := d.desc.map fun x => if x = "" then "s" else x } } }
+
+def splitAt2 (marker : String) (ts : List String) : Option (List String × List String) :=
+  match ts with
+  | [] => none
+  | t :: r =>
+    if t ≠ marker then none else
+    let a := r.takeWhile (· ≠ marker)
+    let b := r.dropWhile (· ≠ marker)
+    if b.isEmpty then none else some (t :: a, b)
+
+def allDistinct : List Name → Bool
+  | [] => true
+  | a :: r => !r.contains a && allDistinct r
+
+def handle (op : String) (args : List String) : Option String :=
+  match op with
+  | "c12.less" => do
+    let ((a, b), _) ← (do let a ← pName; let b ← pName; pure (a, b) : P _).run args
+    pure (boolStr (depLess a b))
+  | "c12.atoi" => do
+    let (a, _) ← pName.run args
+    pure (match atoi a with | some v => toString v | none => "err")
+  | "c12.arrname" => do
+    let ((p, i), _) ← (do let p ← pName; let i ← pNat; pure (p, i) : P _).run args
+    pure (nameTok (arrName p i))
+  | "c12.edit" => do
+    let ((E, g, ops), _) ← pCase.run args
+    let (gf, st) := runStat E g ops
+    pure ((if st.isEmpty then "-" else ",".intercalate st) ++ " " ++ join (graphToks E (normEmpty gf)))
+  | "c12.save" => do
+    let ((E, g, ops), _) ← pCase.run args
+    pure (join (schemaToks (normEmptyS (encode E depLess (run E g ops)))))
+  | "c12.reload" => do
+    let ((E, g, ops), _) ← pCase.run args
+    match decode E Hdr.empty (encode E depLess (run E g ops)) with
+    | .ok g' => pure (join (graphToks E (normEmpty g')))
+    | .error e => pure (errTok e)
+  | "c12.file" => do
+    let ((E, s), _) ← (do let tys ← pCounted pTy; let s ← pSchema; pure (mkEnv tys, s) : P _).run args
+    match decode E Hdr.empty s with
+    | .ok g' => pure (join (graphToks E (normEmpty g')) ++ " " ++ join (schemaToks (normEmptyS (encode E depLess g'))))
+    | .error e => pure (errTok e)
+  | "c12.holds.same_graph" => do
+    let ((E, g1, g2), _) ← (do let tys ← pCounted pTy; let a ← pGraph; let b ← pGraph; pure (mkEnv tys, a, b) : P _).run args
+    pure (boolStr (Graph.same E metaEq g1 g2 && Graph.same E metaEq g2 g1))
+  | "c12.holds.bytes_identical" =>
+    match args with
+    | [a, b] => some (boolStr (a == b && a != "spanic" && a != "s70616e6963"))
+    | _ => none
+  | "c12.holds.schema_fixpoint" => do
+    let (a, b) ← splitAt2 "S" args
+    let (sa, _) ← pSchema.run a
+    let (sb, _) ← pSchema.run b
+    pure (boolStr (schemaToks sa == schemaToks sb))
+  | "c12.holds.same_artifacts" => do
+    let (l, _) ← (pCounted (do let n ← pRaw; let a ← tok; let b ← tok; pure (n, a, b)) : P _).run args
+    -- an artifact whose evaluation panics (an unconnected required input) must do so on both sides
+    pure (boolStr (l.all fun (_, a, b) => a == b && a != "missing"))
+  | "c12.holds.ports_distinct" => do
+    let ((_, ns), _) ← (do let t ← pRaw; let ns ← pCounted pName; pure (t, ns) : P _).run args
+    pure (boolStr (allDistinct (ns.map lower) && ns.all (fun n => !n.contains '.' && !n.isEmpty)))
+  | "c12.holds.param_law" =>
+    match args with
+    | [_, j1, j2, b1, b2, same, md] => some (boolStr (j1 == j2 && b1 == b2 && same == "true" && md == "true"))
+    | _ => some "false"
+  | "c12.holds.repo_file_loads" =>
+    match args with
+    | [_, st] => some (boolStr (st == hs "ok"))
+    | _ => none
+  | "c12.holds.repo_file_bytes_identical" =>
+    match args with
+    | [_, a, b] => some (boolStr (a == b))
+    | _ => none
+  | "c12.holds.repo_file_schema_reproduced" =>
+    match args with
+    | _ :: rest => do
+      let (a, b) ← splitAt2 "S" rest
+      let (sa, _) ← pSchema.run a
+      let (sb, _) ← pSchema.run b
+      pure (boolStr (schemaToks sa == schemaToks sb))
+    | _ => none
+  | "c12.holds.save_ok" => some "false"
+  | "c12.holds.reload_ok" => some "false"
+  | "c12.holds.fileparam_content" => do
+    let ((st, l), _) ← (do let st ← pRaw; let l ← pCounted (do let a ← pRaw; let b ← pRaw; pure (a, b)); pure (st, l) : P _).run args
+    pure (boolStr (st == hs "ok" && l.all fun (a, b) => a == b))
+  | "c12.holds.fileparam_description" =>
+    match args with
+    | [a, b] => some (boolStr (a == b))
+    | _ => none
+  | "c12.holds.fileparam_bytes_identical" =>
+    match args with
+    | [a, b] => some (boolStr (a == b))
+    | _ => none
+  | _ => none
 
 end Driver.C12
 
